@@ -168,6 +168,14 @@ P_C15L(pre, e) ==
           LET left == {o \in LeftLiveWhileIncomplete(pre, e.st) : Has(e.st.mkt, e.st.ord[o].mid)}
           IN Ck("C15", "RemovedOnlyAfterComplete", left = {}, left))
     /\ Ck("C15", "LiveInBlotter", LiveNotInBlotter(e.st) = {}, LiveNotInBlotter(e.st))
+\* data for a closed market (a book, or a raw dict update with or without a definition) re-opens it with
+\* its cleared flags reset
+P_C20R(pre, e) ==
+    (e.ev \in {"book", "raw"} /\ Has(pre.mkt, e.a.mid) /\ pre.mkt[e.a.mid].closed) =>
+       Ck("C20", "ReopenedWithFlagsReset",
+          Has(e.st.mkt, e.a.mid) /\ ~e.st.mkt[e.a.mid].closed /\ e.st.mkt[e.a.mid].ncleared = 0,
+          <<e.ev, e.a.mid, IF Has(e.st.mkt, e.a.mid) THEN <<e.st.mkt[e.a.mid].closed, e.st.mkt[e.a.mid].ncleared>> ELSE <<>>>>)
+
 P_C20L(pre, e) ==
     e.ev = "close" =>
        /\ Ck("C20", "CallbackOncePerClosingUpdate",
@@ -194,7 +202,7 @@ StepOK(pre, e) ==
     /\ ("C03" \in Props => P_C03L(pre, e))
     /\ ("C10" \in Props => P_C10L(pre, e))
     /\ ("C15" \in Props => P_C15L(pre, e))
-    /\ ("C20" \in Props => P_C20L(pre, e))
+    /\ ("C20" \in Props => P_C20L(pre, e) /\ P_C20R(pre, e))
 
 Init == tid \in 1..Len(Traces) /\ l = 1
 Next == /\ l < NSteps(tid)
